@@ -429,3 +429,24 @@ def run(repo, rep, tier):  # noqa: F811 -- round-5 shape rules appended to the r
 _ADDR5B = " R13.11: every option read through get_dialect_or_config_option defaults to Sentinel.MISSING on BaseConfig and on Dialect (a concrete class-level default would shadow the namespaces consulted later, e.g. a codec's default_dialect)."
 EXPLANATION += _ADDR5B
 LEVEL_TEXT += _ADDR5B
+
+
+_run_before_r6b = run
+
+
+def run(repo, rep, tier):  # noqa: F811 -- round-6 remedies (core/round6.py)
+    _run_before_r6b(repo, rep, tier)
+    if getattr(rep, "borrowed", False):
+        return
+    from ..core import round6 as _r6b
+    _r6b.dispatcher_paths_agree(repo, rep, "R13.12")
+    _r6b.default_dialect_is_default(repo, rep, "R13.13")
+    _r6b.flag_lists_owned(repo, rep, "R19.11")
+    _r6b.codec_dialect_merge_order(repo, rep, "R04.7")
+    _r6b.shared_options_read_through_chain(repo, rep, "R08.9")
+    _r6b.own_config_only_sites(repo, rep, "R06.16")
+
+
+_ADDR6C = ' R13.12: both exits of the dialect dispatcher (cache hit / compile-then-call) forward one argument list through one return template, and the emitted CodeBuilder(...) calls of the pack and unpack dispatchers carry the same keywords. R13.13: whatever is passed as default_dialect= to a CodeBuilder (real or emitted call) never mentions the call dialect. Borrowed: R19.11, R04.7, R08.9, R06.16.'
+EXPLANATION += _ADDR6C
+LEVEL_TEXT += _ADDR6C
